@@ -43,12 +43,29 @@ def sstepCode : SStep → PI
 def rootCode : SRoot → List PI
   | .abs => [.pathRoot] | .cur => [.pathSetCurrent] | .rel => []
 
+mutual
+/-- a function result over paths: `.env i` is the i-th argument path, evaluated where it stands -/
+def scalarCodeP (ps : List SPath) : Expr → List PI
+  | .num x => [.num x]
+  | .lit s => [.lit (strToRunes s)]
+  | .env i => (match ps[i]? with
+      | some p => rootCode p.root ++ p.steps.map sstepCode ++ [.evalLocPath]
+      | none => [])
+  | .neg e => scalarCodeP ps e ++ [.negate]
+  | .bin op a b => scalarCodeP ps a ++ scalarCodeP ps b ++ [binPI op]
+  | .call f args => scalarListCodeP ps args ++ [.bltin f]
+def scalarListCodeP (ps : List SPath) : List Expr → List PI
+  | [] => []
+  | e :: es => scalarCodeP ps e ++ scalarListCodeP ps es
+end
+
 def operandCode : Operand → List PI
   | .lit s => [.lit (strToRunes s)]
   | .num x => [.num x]
   | .scalar e => scalarCode e
   | .path p =>
     rootCode p.root ++ p.steps.map sstepCode ++ [.evalLocPath]
+  | .scalarP e ps => scalarCodeP ps e
 
 def predCode (kv : Str × Operand) : List PI :=
   [.predStart, .namePush [] (strToRunes kv.1), .evalLocPath] ++ operandCode kv.2 ++ [.eq, .predEnd]
